@@ -121,13 +121,9 @@ Section Exec.
 Variable σ : nat -> st.
 Variable λ : nat -> label.
 Hypothesis Hex : execution σ λ.
-Hypothesis Hnorel : forall n, λ n <> RelCall.     (* the dispatcher never accepts a Release *)
-Hypothesis Hpre0 : pre_release (dp (σ 0)) = true.
 
 Lemma ex_reachable n : reachable (σ n).
 Proof. destruct Hex as [H0 Hst]. induction n; [exact H0|]. eapply reachable_step; [exact IHn|apply Hst]. Qed.
-Lemma ex_pre n : pre_release (dp (σ n)) = true.
-Proof. destruct Hex as [H0 Hst]. induction n; [exact Hpre0|]. eapply pre_release_step; [exact IHn|apply Hnorel|apply Hst]. Qed.
 Lemma ex_subm j n m : n <= m -> In j (subm (σ n)) -> In j (subm (σ m)).
 Proof.
   destruct Hex as [_ Hst]. induction 1; auto. intros H0. eapply step_subm_mono; [apply Hst|auto].
@@ -137,46 +133,67 @@ Proof.
   destruct Hex as [_ Hst]. induction 1; auto. intros H0. eapply step_fin_mono; [apply Hst|auto].
 Qed.
 
-(* chase a helpful enabled step until it is taken (or the rank drops earlier) *)
+(* chase a helpful enabled step until it is taken, the rank drops earlier, or the dispatcher accepts a Release *)
 Lemma chase j l : internal l = true -> l <> RelCall -> forall d n,
-  (λ (n + d) = l \/ step (σ (n + d)) l = None) ->
+  (λ (n + d) = l \/ step (σ (n + d)) l = None) -> pre_release (dp (σ n)) = true ->
   In j (subm (σ n)) -> ~ In j (fin (σ n)) -> helpful_for j (σ n) l -> step (σ n) l <> None ->
-  exists m, n <= m /\ mu j (σ (S m)) < mu j (σ n).
+  exists m, n <= m /\ (λ m = RelCall \/ (mu j (σ (S m)) < mu j (σ n) /\ pre_release (dp (σ (S m))) = true)).
 Proof.
   intros Hi Hl. destruct Hex as [_ Hst].
-  induction d as [|d IH]; intros n Hend Hj Hf Hh Hen.
+  assert (Take : forall n, pre_release (dp (σ n)) = true -> ~ In j (fin (σ n)) -> helpful_for j (σ n) l -> λ n = l ->
+                 mu j (σ (S n)) < mu j (σ n) /\ pre_release (dp (σ (S n))) = true).
+  { intros n Hp Hf Hh E. split.
+    - eapply helpful_decreases; [apply ex_reachable|exact Hp|exact Hf|exact Hh|]. rewrite <- E. apply Hst.
+    - eapply pre_release_step; [exact Hp| |apply Hst]. congruence. }
+  induction d as [|d IH]; intros n Hend Hp Hj Hf Hh Hen.
   - rewrite Nat.add_0_r in Hend. destruct Hend as [E|E]; [|contradiction].
-    exists n. split; [lia|]. eapply helpful_decreases; [apply ex_reachable|apply ex_pre|exact Hf|exact Hh|]. rewrite <- E. apply Hst.
-  - destruct (label_eq_dec (λ n) l) as [E|E].
-    + exists n. split; [lia|]. eapply helpful_decreases; [apply ex_reachable|apply ex_pre|exact Hf|exact Hh|]. rewrite <- E. apply Hst.
-    + pose proof (mu_nonincreasing W Q (σ n) (λ n) (σ (S n)) j (ex_reachable n) (ex_pre n) Hj (Hnorel n) (Hst n)) as Hle.
-      destruct (Nat.eq_dec (mu j (σ (S n))) (mu j (σ n))) as [Heq|Hneq]; [|exists n; split; lia].
-      assert (Hf' : ~ In j (fin (σ (S n)))).
-      { intros X. apply mu_zero_iff in X. rewrite X in Heq. symmetry in Heq. apply mu_zero_iff in Heq. contradiction. }
-      destruct (IH (S n)) as (m & Hm & Hlt).
-      * replace (S n + d) with (n + S d) by lia. exact Hend.
-      * eapply step_subm_mono; [apply Hst|exact Hj].
-      * exact Hf'.
-      * eapply helpful_persists; [apply ex_reachable|apply ex_pre|exact Hf|exact Hh|apply Hst|exact E|apply Hnorel|exact Heq].
-      * eapply enabled_step_persists; [apply ex_pre|exact Hi|exact Hl|exact Hen|apply Hst|exact E|apply Hnorel].
-      * exists m. split; lia.
+    exists n. split; [lia|]. right. now apply Take.
+  - destruct (label_eq_dec (λ n) l) as [E|E]. { exists n. split; [lia|]. right. now apply Take. }
+    destruct (label_eq_dec (λ n) RelCall) as [R|R]. { exists n. split; [lia|]. now left. }
+    pose proof (pre_release_step _ _ _ _ _ Hp R (Hst n)) as Hp'.
+    pose proof (mu_nonincreasing W Q (σ n) (λ n) (σ (S n)) j (ex_reachable n) Hp Hj R (Hst n)) as Hle.
+    destruct (Nat.eq_dec (mu j (σ (S n))) (mu j (σ n))) as [Heq|Hneq]; [|exists n; split; [lia|right; split; [lia|exact Hp']]].
+    assert (Hf' : ~ In j (fin (σ (S n)))).
+    { intros X. apply mu_zero_iff in X. rewrite X in Heq. symmetry in Heq. apply mu_zero_iff in Heq. contradiction. }
+    destruct (IH (S n)) as (m & Hm & Hres).
+    + replace (S n + d) with (n + S d) by lia. exact Hend.
+    + exact Hp'.
+    + eapply step_subm_mono; [apply Hst|exact Hj].
+    + exact Hf'.
+    + eapply helpful_persists; [apply ex_reachable|exact Hp|exact Hf|exact Hh|apply Hst|exact E|exact R|exact Heq].
+    + eapply enabled_step_persists; [exact Hp|exact Hi|exact Hl|exact Hen|apply Hst|exact E|exact R].
+    + exists m. split; [lia|]. destruct Hres as [Hres|[Hlt Hpm]]; [now left|right; split; [lia|exact Hpm]].
 Qed.
 
-Theorem eventually_finished : 1 <= W -> weakly_fair σ λ ->
-  forall j n, In j (subm (σ n)) -> exists m, n <= m /\ In j (fin (σ m)).
+(* every job sent before the dispatcher accepts a Release finishes, unless a Release is accepted first *)
+Theorem eventually_finished_or_released : 1 <= W -> weakly_fair σ λ ->
+  forall j n, pre_release (dp (σ n)) = true -> In j (subm (σ n)) -> exists m, n <= m /\ (In j (fin (σ m)) \/ λ m = RelCall).
 Proof.
   intros HW Hfair j.
-  assert (G : forall k n, mu j (σ n) <= k -> In j (subm (σ n)) -> exists m, n <= m /\ In j (fin (σ m))).
-  { induction k as [|k IH]; intros n Hk Hj.
-    - exists n. split; [lia|]. apply mu_zero_iff. lia.
-    - destruct (in_dec N.eq_dec j (fin (σ n))) as [Hf|Hf]; [exists n; split; [lia|exact Hf]|].
-      destruct (helpful_enabled (σ n) j HW (ex_reachable n) (ex_pre n) Hj Hf) as (l & Hh & Hi & Hl & Hen).
+  assert (G : forall k n, mu j (σ n) <= k -> pre_release (dp (σ n)) = true -> In j (subm (σ n)) ->
+              exists m, n <= m /\ (In j (fin (σ m)) \/ λ m = RelCall)).
+  { induction k as [|k IH]; intros n Hk Hp Hj.
+    - exists n. split; [lia|]. left. apply mu_zero_iff. lia.
+    - destruct (in_dec N.eq_dec j (fin (σ n))) as [Hf|Hf]; [exists n; split; [lia|now left]|].
+      destruct (helpful_enabled (σ n) j HW (ex_reachable n) Hp Hj Hf) as (l & Hh & Hi & Hl & Hen).
       destruct (Hfair n l Hi Hen) as (m0 & Hm0 & Hend).
-      destruct (chase j l Hi Hl (m0 - n) n) as (m & Hm & Hlt); auto.
+      destruct (chase j l Hi Hl (m0 - n) n) as (m & Hm & Hres); auto.
       { replace (n + (m0 - n)) with m0 by lia. exact Hend. }
-      destruct (IH (S m)) as (m' & Hm' & Hfin); [lia|apply (ex_subm j n (S m)); [lia|exact Hj]|].
+      destruct Hres as [R|[Hlt Hpm]]; [exists m; split; [lia|now right]|].
+      destruct (IH (S m)) as (m' & Hm' & Hfin); [lia|exact Hpm|apply (ex_subm j n (S m)); [lia|exact Hj]|].
       exists m'. split; [lia|exact Hfin]. }
-  intros n Hj. apply (G (mu j (σ n)) n); auto.
+  intros n Hp Hj. apply (G (mu j (σ n)) n); auto.
+Qed.
+
+(* in particular: no Release accepted at all *)
+Corollary eventually_finished : (forall n, λ n <> RelCall) -> pre_release (dp (σ 0)) = true -> 1 <= W -> weakly_fair σ λ ->
+  forall j n, In j (subm (σ n)) -> exists m, n <= m /\ In j (fin (σ m)).
+Proof.
+  intros Hnorel Hpre0 HW Hfair j n Hj.
+  assert (Hp : forall k, pre_release (dp (σ k)) = true).
+  { destruct Hex as [_ Hst]. induction k; [exact Hpre0|]. eapply pre_release_step; [exact IHk|apply Hnorel|apply Hst]. }
+  destruct (eventually_finished_or_released HW Hfair j n (Hp n) Hj) as (m & Hm & [H|H]); [eauto|].
+  exfalso. apply (Hnorel m H).
 Qed.
 End Exec.
 End Ev.
